@@ -4,7 +4,8 @@ package dilithium
 
 // Hook point for the verification harness (build tag "verif"): one event per
 // iteration of the signing loop. exit: 0 accept, 1 z too large, 2 w0 too
-// large, 3 ct0 too large, 4 too many hints. A nil hook changes nothing.
+// large, 3 ct0 too large, 4 too many hints; 12 / 13: the w0 / ct0 test was
+// passed (w0 resp. h hold the tested vector). A nil hook changes nothing.
 
 var VerifSignHook func(exit int, nonce uint16, z *[L]VerifPoly, w0, h *[K]VerifPoly, hints uint)
 
